@@ -1,4 +1,6 @@
 import GeomV.C04.Lemmas
+import GeomV.C04.Iter
+import GeomV.C04.KeyOrder
 /-!
 # C04 — property theorems
 
@@ -39,6 +41,33 @@ theorem C04_lenL (gs : List (Geom α)) (h : noNilL gs = true) : lenL gs = .ok (v
     simp only [noNilL, Bool.and_eq_true] at h
     simp [lenL, verticesL, C04_len g h.1, C04_lenL gs h.2, bind, Except.bind, pure, Except.pure]
 end
+
+/-- **C04_points.** For every geometry without nil members — any of the eight types, collections
+nested to any depth, any number of consecutive members without vertices (empty rings, line strings,
+polygons, collections) anywhere — calling the closure returned by `Points()` exactly `Len()` times
+raises no fault and returns exactly the vertices in storage order. -/
+theorem C04_points (g : Geom α) (h : noNil g = true) : pointsOf g = .ok (vertices g) := by
+  have hg := good g h C04_len
+  obtain ⟨s0, hs0, hr0⟩ := hg.2.1
+  simp [pointsOf, hg.1, hs0, drain_of_good g hg (vertices g) s0 hr0, bind, Except.bind]
+
+/-- every single call within the first `Len()` calls returns without a fault (prefix form):
+after any `n ≤ Len()` calls the closure has returned the first `n` vertices. -/
+theorem C04_points_prefix (g : Geom α) (h : noNil g = true) (n : Nat) (hn : n ≤ (vertices g).length) :
+    ∃ s0, init g = .ok s0 ∧ drain g n s0 = .ok ((vertices g).take n) := by
+  have hg := good g h C04_len
+  obtain ⟨s0, hs0, hr0⟩ := hg.2.1
+  refine ⟨s0, hs0, ?_⟩
+  clear hs0
+  generalize vertices g = vs at hn hr0
+  induction n generalizing s0 vs with
+  | zero => rfl
+  | succ n ih =>
+    cases vs with
+    | nil => simp at hn
+    | cons v vs =>
+      obtain ⟨s', hnx, hr⟩ := hg.2.2 s0 v vs hr0
+      simp [drain, hnx, ih s' vs (by simpa using hn) hr, bind, Except.bind, pure, Except.pure]
 
 end len
 
@@ -299,6 +328,77 @@ theorem C04_bounds_emptybox_counterexample (hne : (⊥ : α) < ⊤) :
   simp only at this
   exact absurd this (not_le.mpr hne)
 
+/-! ## the run-time judge checks exactly the specification
+
+`Spec.…B` are the decidable functions `geomv_c04 judge` evaluates on the implementation's answers;
+each is equivalent to the semantic statement it stands for. -/
+
+/-- judge, `Bounds()` verdict: `isEnvelopeB` ⇔ "smallest box containing exactly the vertices" -/
+theorem C04_spec_envelope (vs : List (Pt α)) (b : Box α) : isEnvelopeB vs b = true ↔ IsEnvelope vs b :=
+  isEnvelopeB_iff vs b
+
+/-- judge, `Extend` verdict: `isJoinB` ⇔ least upper bound (all boxes, canonical or not) -/
+theorem C04_spec_join (a b j : Box α) : isJoinB a b j = true ↔ IsJoin a b j := isJoinB_iff a b j
+
+/-- judge, `Overlaps` verdict: `sharePointB` ⇔ the closed boxes share a point -/
+theorem C04_spec_sharePoint (a b : Box α) : sharePointB a b = true ↔ SharePoint a b := sharePointB_iff a b
+
+/-- judge, `Intersection` verdict: `intersectionOkB` ⇔ nil iff no common area, else exactly the
+common rectangle -/
+theorem C04_spec_intersection (a b : Box α) (r : Option (Box α)) :
+    intersectionOkB a b r = true ↔
+      ((r = none ↔ ¬ HasCommonArea a b) ∧ ∀ r', r = some r' → IsCommonRect a b r') := by
+  have harea : hasCommonAreaB a b = true ↔ HasCommonArea a b := by
+    rw [lo_hi_area]; simp [hasCommonAreaB, lo, hi]
+  cases r with
+  | none => simp [intersectionOkB, ← harea]
+  | some r' =>
+    simp only [intersectionOkB, Bool.and_eq_true, decide_eq_true_eq, harea, reduceCtorEq, false_iff,
+      not_not, Option.some.injEq, forall_eq']
+    constructor
+    · rintro ⟨h, rfl⟩; exact ⟨h, commonRect_lo_hi a b⟩
+    · rintro ⟨h, hr⟩
+      refine ⟨h, (eq_of_same_points _ _ ?_ ?_).symm⟩
+      · obtain ⟨hx, hy⟩ := (lo_hi_area a b).1 h
+        rw [not_emptyB]; exact ⟨le_of_lt hx, le_of_lt hy⟩
+      · intro p; rw [hr p]; exact commonRect_lo_hi a b p
+
+/-- judge, `Empty` verdict -/
+theorem C04_spec_empty (b : Box α) : emptyB b = true ↔ NoPoint b := emptyB_iff b
+
 end boxes
+
+end GeomV.C04
+
+/-! ## non-vacuity of the hypotheses -/
+namespace GeomV.C04
+open GeomV GeomV.C04.Spec
+
+/-- `noNil` holds for a nested collection with runs of empty members -/
+example : noNil (.collection [.collection [], .polygon [[], [], [⟨1, 1⟩]], .multiPolygon [[], [[]], [[⟨2, 2⟩]]],
+    .collection [.multiPoint [], .point ⟨3, 3⟩]] : Geom Nat) = true := by decide
+
+/-- … and the model really runs on it: five empty members in a row at two depths -/
+example : pointsOf (.collection [.collection [], .polygon [[], [], [⟨1, 1⟩]], .multiPolygon [[], [[]], [[⟨2, 2⟩]]],
+    .collection [.multiPoint [], .point ⟨3, 3⟩]] : Geom Nat) = .ok [⟨1, 1⟩, ⟨2, 2⟩, ⟨3, 3⟩] := by decide
+
+/-- `boxesNonEmpty` / `Canon` / non-emptiness hold for ordinary boxes over the float-value order -/
+example : boxesNonEmpty (.collection [.bounds ⟨0, 0⟩ ⟨1, 2⟩, .point ⟨5, 5⟩] : Geom Nat) = true := by decide
+example : emptyB (⟨⟨0, 0⟩, ⟨1, 2⟩⟩ : Box Nat) = false := by decide
+
+end GeomV.C04
+
+/-! ## the executed instance -/
+namespace GeomV.C04
+open GeomV GeomV.C04.Spec
+
+/-- **C04_exec.** The model the driver runs (coordinates = float64 *values*, `FKey`, with the core
+`≤ < min max ±Inf` instances) is an instance of the theorems: stated here for `Bounds()`, with every
+instance argument spelled out. -/
+theorem C04_exec (g : Geom FKey) (h : noNil g = true)
+    (hb : @boxesNonEmpty FKey FKey.instLE FKey.instDecLE g = true) :
+    ∃ b, @boundsG FKey FKey.instLT FKey.instMin FKey.instMax FKey.instDecLT FKey.instHasInf g = .ok b ∧
+      @IsEnvelope FKey FKey.instLE FKey.instHasInf (vertices g) b :=
+  C04_bounds g h hb
 
 end GeomV.C04
